@@ -228,7 +228,7 @@ def refs_model(refs, base=0):
 def gen_misc(tier):
     """groups, sticky notes, projects: each is a whole small model"""
     out = []
-    for nitems, note, color, comment in itertools.product((0, 1, 2, 3), ('', 'gn', "g'n\nl2"), (None, '#abc', '#AbCdEf'), (None, 'gc', 'g1\ng2')):
+    for nitems, note, color, comment in itertools.product((0, 1, 2, 3), ('', 'gn', "g'n\nl2", '  deep\nshallow'), (None, '#abc', '#AbCdEf'), (None, 'gc', 'g1\ng2')):
         items = [['public', 'a'], ['s', 'c'], ['public', 'b']][:nitems]
         out.append(('group', A.group('g', items, note=note, color=color, comment=comment)))
     for nitems, color in ((0, None), (2, '#abc')):
@@ -237,7 +237,7 @@ def gen_misc(tier):
         out.append(('group', g))
     for text in ('x', '', "it's", 'two\nlines', '  indented\n    more\n  back'):
         out.append(('note', A.sticky('n', text)))
-    for nitems, note, comment in itertools.product((0, 1, 2), ('', 'pn', "p'n\nl2"), (None, 'pc', 'p1\np2')):
+    for nitems, note, comment in itertools.product((0, 1, 2), ('', 'pn', "p'n\nl2", '    deeper\n  deep\nshallow'), (None, 'pc', 'p1\np2')):
         out.append(('project', A.project('proj', [['database_type', 'PostgreSQL'], ['k 2', "v'2"]][:nitems], note=note, comment=comment)))
     return out
 
